@@ -132,8 +132,10 @@ theorem plain_subOf_counterexample :
     * `compatible r`: the identifier of every `are_sub_modules_of` filter is unrelated to the identifier of every OTHER
       filter of the rule; `are_named` filters may be related to each other freely.
     * `admissible r = parentFree r && dedupSafe r`: the parent identifier of an `are_sub_modules_of` filter is not a
-      MEMBER of any filter of the rule, and (for `anything`) every subject that `_convert_aliases` removes lies below a
-      subject given by name. -/
+      MEMBER of any filter of the rule, and (for `anything`) every subject whose identifier lies strictly below another
+      subject's identifier lies below a subject given by name. Since the repair of F-C12a `_convert_aliases` removes
+      only subjects below a subject given by name, and `parentFree r` alone suffices: see `verdict_spec_parentFree`,
+      `report_spec_parentFree` below (the theorems on `admissible` are kept as they were). -/
 
 theorem strict_compatible (r : RuleSpec) (h : r.strict = true) : compatible r = true := Pta.strict_compatible r h
 theorem allNamed_compatible (r : RuleSpec) (h : allNamedRule r = true) : compatible r = true :=
@@ -270,29 +272,33 @@ example : ∀ v ∈ [Verb.should, Verb.shouldOnly, Verb.shouldNot], ∀ d ∈ [t
     (the parent identifier `p` of the subject is a member of the object `p`) -/
 example : parentFree exSub = false ∧ dedupSafe exSub = true := by decide
 
-/-- the boundary of `admissible`, second half (`dedupSafe`): `p.a` imports `p`;
-    "sub modules of p, p.a should_not import anything". `_convert_aliases` removes the subject `p.a` because its
-    identifier lies below the identifier `p` of the OTHER subject — although `sub modules of p` does not cover the
-    import `p.a → p` (importee `p` is the subject's own parent), which the removed subject `p.a` does forbid
-    (`p` is outside `p.a` and outside every object). The rule is `parentFree`, every other hypothesis holds, the
-    model passes and the specification does not. -/
+/-- the former boundary of `admissible`, second half (`dedupSafe`): `p.a` imports `p`;
+    "sub modules of p, p.a should_not import anything". Before the repair of F-C12a `_convert_aliases` removed the
+    subject `p.a` because its identifier lies below the identifier `p` of the OTHER subject — although
+    `sub modules of p` does not cover the import `p.a → p` (importee `p` is the subject's own parent), which the removed
+    subject `p.a` does forbid (`p` is outside `p.a` and outside every object); the model PASSED and the specification
+    did not hold. Since the repair only a subject given by name covers another subject: `p.a` is kept, the model FAILS,
+    in agreement with the specification. The rule is `parentFree` and not `dedupSafe`, i.e. outside `admissible` but
+    inside the domain of `verdict_spec_parentFree` below. -/
 def exDd : RuleSpec :=
   { verb := .shouldNot, importDir := true, exc := false, subjects := [.subOf (nm "p"), .named (nm "p.a")], objects := [],
     anything := true }
-theorem anything_subOf_dedup_counterexample :
+theorem anything_subOf_dedup_repaired :
     exB.wf = true ∧ exDd.namesIn exB = true ∧ parentFree exDd = true ∧ dedupSafe exDd = false ∧
-    verdictOf (fun _ _ => false) (archGraph exB) (compile exDd) = .pass ∧ verdict exB exDd = false := by decide
+    dedupSubjects (exDd.subjects.map compileFilter) = exDd.subjects.map compileFilter ∧
+    verdictOf (fun _ _ => false) (archGraph exB) (compile exDd) = .fail ∧ verdict exB exDd = false := by decide
 
-/-- the same boundary with a rule the fluent API CAN build (one `are_sub_modules_of([...])` call):
-    nodes `p`, `p.a`, `p.a.x`, `q`; the only import is `p.a.x → p`;
+/-- the same with a rule the fluent API CAN build (one `are_sub_modules_of([...])` call) — the regression witness of
+    F-C12a: nodes `p`, `p.a`, `p.a.x`, `q`; the only import is `p.a.x → p`;
     `modules_that().are_sub_modules_of(["p", "p.a"]).should_not().import_anything()`.
-    `_convert_aliases` removes the subject `sub modules of p.a` (its identifier lies below `p`) and the remaining rule
-    "sub modules of p should_not import except sub modules of p" tolerates the import (its far end `p` is the subject's
-    own parent): the model PASSES. The specification does not hold: for the subject `sub modules of p.a` the importee
-    `p` is outside `p.a` and outside every object. The model itself agrees with the specification on the rule WITHOUT the
-    alias, `… should_not().import_modules_except_modules_that().are_sub_modules_of(["p", "p.a"])` (it FAILS), so on this
-    input the alias conversion changes the verdict. The rule is neither `parentFree` (`p.a` is a member of
-    `sub modules of p`) nor `dedupSafe`; all other hypotheses of the oracle theorems hold. -/
+    Before the repair `_convert_aliases` removed the subject `sub modules of p.a` (its identifier lies below `p`) and the
+    remaining rule "sub modules of p should_not import except sub modules of p" tolerates the import (its far end `p` is
+    the subject's own parent): the model PASSED, against the specification (for the subject `sub modules of p.a` the
+    importee `p` is outside `p.a` and outside every object) and against the model's own verdict on the rule WITHOUT the
+    alias, `… should_not().import_modules_except_modules_that().are_sub_modules_of(["p", "p.a"])` (it FAILS).
+    Since the repair `sub modules of p` removes nothing: alias and spelled-out rule both FAIL, as the specification
+    says. (The rule is neither `parentFree` — `p.a` is a member of `sub modules of p` — nor `dedupSafe`, so it is
+    outside the domain of the oracle theorems; on this input model and specification agree nevertheless.) -/
 def exE : Arch := { nodes := ["p", "p.a", "p.a.x", "q"].map nm, imports := [(nm "p.a.x", nm "p")] }
 def exEany : RuleSpec :=
   { verb := .shouldNot, importDir := true, exc := false, subjects := [.subOf (nm "p"), .subOf (nm "p.a")], objects := [],
@@ -300,12 +306,41 @@ def exEany : RuleSpec :=
 def exEexc : RuleSpec :=
   { verb := .shouldNot, importDir := true, exc := true, subjects := [.subOf (nm "p"), .subOf (nm "p.a")],
     objects := [.subOf (nm "p"), .subOf (nm "p.a")] }
-theorem anything_nested_subOf_counterexample :
+theorem anything_nested_subOf_repaired :
     exE.wf = true ∧ exEany.namesIn exE = true ∧ fluent exEany = true ∧ fluent exEexc = true ∧
     parentFree exEany = false ∧ dedupSafe exEany = false ∧
-    verdictOf (fun _ _ => false) (archGraph exE) (compile exEany) = .pass ∧ verdict exE exEany = false ∧
+    verdictOf (fun _ _ => false) (archGraph exE) (compile exEany) = .fail ∧ verdict exE exEany = false ∧
     verdictOf (fun _ _ => false) (archGraph exE) (compile exEexc) = .fail ∧ verdict exE exEexc = false ∧
-    (runRuleOps id (fun _ _ => false) (ruleOps exEany) (archGraph exE)).1 = .pass := by decide
+    (runRuleOps id (fun _ _ => false) (ruleOps exEany) (archGraph exE)).1.cls = .fail := by decide
+
+/-! ### after the repair of F-C12a: `parentFree` alone suffices
+
+    `_convert_aliases` now removes a subject only when its identifier lies strictly below the identifier of a subject
+    GIVEN BY NAME; such a subject covers the removed one, so the `dedupSafe` half of `admissible` is not needed any more. -/
+
+/-- verdict = documented semantics for every `parentFree` rule (⊇ `admissible`) -/
+theorem verdict_spec_parentFree (mt : Str → Str → Bool) (a : Arch) (g : PGraph Str) (hg : GraphOf a g) (hwf : a.wf = true)
+    (r : RuleSpec) (hpf : parentFree r = true) (hnames : r.namesIn a = true)
+    (hs : r.subjects ≠ []) (ho : r.anything = true ∨ r.objects ≠ [])
+    (hany : r.anything = true → r.verb = .shouldNot) :
+    verdictOf mt g (compile r) = VClass.ofBool (verdict a r) :=
+  Pta.verdict_spec_pf_lemma mt a g hg hwf r hpf hnames hs ho hany
+
+/-- the reported atoms are the specification's violating set for every `parentFree` rule -/
+theorem report_spec_parentFree (mt : Str → Str → Bool) (a : Arch) (g : PGraph Str) (hg : GraphOf a g) (hwf : a.wf = true)
+    (r : RuleSpec) (hpf : parentFree r = true) (hnames : r.namesIn a = true)
+    (hs : r.subjects ≠ []) (ho : r.anything = true ∨ r.objects ≠ [])
+    (hany : r.anything = true → r.verb = .shouldNot) (items : List Item)
+    (h : (assertApplies mt (compile r) g).2 = .fail items) :
+    ∀ x, x ∈ items.flatMap Item.atoms ↔ x ∈ (violating a r).flatMap SItem.atoms :=
+  Pta.report_spec_pf_lemma mt a g hg hwf r hpf hnames hs ho hany items h
+
+theorem admissible_parentFree (r : RuleSpec) (h : admissible r = true) : parentFree r = true :=
+  Pta.admissible_parentFree r h
+
+/-- non-vacuity beyond `admissible`: `exDd` meets every hypothesis of `verdict_spec_parentFree` and is not `admissible` -/
+example : exB.wf = true ∧ parentFree exDd = true ∧ admissible exDd = false ∧ exDd.namesIn exB = true ∧ exDd.subjects ≠ [] ∧
+    exDd.anything = true ∧ exDd.verb = .shouldNot := by decide
 
 /-! ### the fluent call chain reaches `compile r` (audit F14) -/
 
